@@ -19,7 +19,7 @@ META = dict(
         quick="every graph on <=3 nodes with all relabelings (solver-chosen bijection onto an id pool x solver-chosen "
               "insertion order), 4-node graphs with <=4 bonds under all bijections and reversed insertion order, C4 and "
               "K4-e with fixed labels; element in {C,N}, hcount in {0,1}, order in {1,2}; back-ends generic, wl, morgan, "
-              "nauty; both copies of the module; soundness/completeness on all pairs of equal-size graphs <=3 nodes",
+              "nauty; rule-like graphs with pair-valued bond orders (3-chain, triangle, 4-ring; orders in {1,2}x{1,2}, all-carbon in the quick tier); both copies of the module; soundness/completeness on all pairs of equal-size graphs <=3 nodes",
         thorough="4-node graphs with all insertion orders, 5-node graphs (<=5 bonds) and C5, C6, K2,3 under solver-chosen "
                  "bijections; pairs up to 4 nodes",
     ),
@@ -66,7 +66,7 @@ def faithful_bad(g, cg):
     return NOT(f)
 
 
-def build(E, pre, n, edges, fixed=False, noh=False):
+def build(E, pre, n, edges, fixed=False, noh=False, pairs=False, mono=False):
     if fixed:
         g = nx.Graph()
         for v in range(1, n + 1):
@@ -74,14 +74,18 @@ def build(E, pre, n, edges, fixed=False, noh=False):
         for u, v in edges:
             g.add_edge(u, v, order=1)
         return g
-    g, _ = sym_mol(E, pre, n, [tuple(e) for e in edges], elements=("C", "N"), hcounts=(0,) if noh else (0, 1), charges=(0,),
+    g, _ = sym_mol(E, pre, n, [tuple(e) for e in edges], elements=("C",) if mono else ("C", "N"), hcounts=(0,) if noh else (0, 1), charges=(0,),
                    orders=(1, 2))
+    if pairs:
+        # rule / ITS-like graph: every bond order is a (before, after) pair
+        for u, v in g.edges:
+            g[u][v]["order"] = (g[u][v]["order"], E.choice("%sq%d_%d" % (pre, u, v), [1, 2]))
     return g
 
 
-def h_canon(E, n, edges, backend, copy, relab, fixed=False, noh=False):
+def h_canon(E, n, edges, backend, copy, relab, fixed=False, noh=False, pairs=False, mono=False):
     GC, CG = canon_cls(copy)
-    g = build(E, "g", n, edges, fixed, noh)
+    g = build(E, "g", n, edges, fixed, noh, pairs, mono)
     canon = GC(backend=backend)
     cg1 = canon.make_canonical_graph(g)
     sig1 = canon.canonical_signature(g)
@@ -119,7 +123,7 @@ def h_canon(E, n, edges, backend, copy, relab, fixed=False, noh=False):
         s1, s2 = SynGraph(g, canon), SynGraph(g3, canon)
         E.check(not (s1 == s2 and hash(s1) == hash(s2)), "exact-backend-syngraph-equal-for-isomorphic-graphs", inv)
     # the same canonicaliser object, the same graph object, edited in place (size unchanged) in between
-    if not fixed and n >= 1:
+    if not fixed and not pairs and n >= 1:
         c2 = GC(backend=backend)
         c2.canonical_signature(g)
         v0 = list(g.nodes)[0]
@@ -183,6 +187,11 @@ def shards(tier, seed):
         for es in all_shapes(5, max_edges=5):
             if len(es) >= 4:
                 sh.append(dict(h="canon", params=dict(n=5, edges=es, backend="nauty", copy="Canon", relab="rev", fixed=True)))
+    # rule / ITS-like graphs (pair-valued bond orders) on the triangle, the 3-chain and the 4-ring
+    for n, es in ((3, [[1, 2], [2, 3]]), (3, [[1, 2], [1, 3], [2, 3]]), (4, [[1, 2], [2, 3], [3, 4], [1, 4]])):
+        for be in (("nauty",) if q else ("nauty", "wl")):
+            sh.append(dict(h="canon", params=dict(n=n, edges=es, backend=be, copy="Canon", relab="sym" if n == 3 or not q else "rev",
+                                                  noh=True, pairs=True, mono=q)))
     for n, es in sym_fams:
         for be in BACKENDS:
             sh.append(dict(h="canon", params=dict(n=n, edges=es, backend=be, copy="Canon", relab="sym" if n <= 4 else "rev",
